@@ -584,8 +584,10 @@ func c03makeBase(c *Ctx, r *mon.Rand, bi int, k *gen.AlgKey) *c03base {
 			}
 		}
 	case "hashenv":
-		ha := mon.Pick(r, int64(-16), int64(-43), int64(-44))
-		hv := r.Bytes(map[int64]int{-16: 32, -43: 48, -44: 64}[ha])
+		// the three hash algorithms the library knows the digest length of, and registered ones it does not
+		// (SHAKE128/256, SHA-1, SHA-512/256, an unassigned id) with the digest length of the registry
+		ha := []int64{-16, -18, -43, -45, -44, -14, -17, -9999}[(bi%7+bi/56)%8]
+		hv := r.Bytes(map[int64]int{-16: 32, -43: 48, -44: 64, -18: 32, -45: 64, -14: 20, -17: 32, -9999: 40}[ha])
 		l := gen.RandLayer(r, gen.LayerOpts{Alg: &alg, MaxProt: 1, MaxUnprot: 1, ScramblePct: 20})
 		if l.ProtMap == nil {
 			l.ProtMap = refcbor.NMap()
